@@ -15,7 +15,7 @@ def run(tier, seed, t0):
                             ['C11.refresh', 'C11.cache-add', 'C11.cache-flush', 'C11.cache-evict', 'C11.cache-refresh-due', 'C11.cache-verify-cut',
                              'C11.cache-goodbye', 'C11.cache-update'],
                             ASSUME + cachemech.ASSUME, RULE + cachemech.RULE, n_quick=80, n_thorough=2000,
-                            pre=lambda v, t, s: cachemech.step(PROP, PREFIXES, ["MCCache.cfg"], v, t, s, mc_thorough=["MCCacheT.cfg"]))
+                            pre=lambda v, t, s: cachemech.step(PROP, PREFIXES, ["MCCache.cfg"], v, t, s, mc_thorough=["MCCacheT.cfg"], proofs=True))
 
 
 def replay(path, seed):
